@@ -3118,7 +3118,9 @@ class Gaussian(Preparation, Decomposition):
             for n, expr in enumerate(D[: self.ns]):
                 if np.abs(expr - 1) >= _decomposition_tol:
                     r = np.abs(np.log(expr) / 2)
-                    cmds.append(Command(Squeezed(r, 0), reg[n]))
+                    # an x variance above the vacuum level means squeezing in p
+                    phi = 0 if expr < 1 else np.pi
+                    cmds.append(Command(Squeezed(r, phi), reg[n]))
                 else:
                     cmds.append(Command(Vac, reg[n]))
 
